@@ -11,7 +11,8 @@ from luqum.exceptions import ParseError
 
 POOL = ["a", " a  OR b ", "a AND", "(a", "a^2.5 b~ \"c d\"~3", "f:(x y)", "[1 TO", "[1 TO 2]", "a:b:c", "\\", "",
         "  ", "a ^", "'", "a OR", "NOT", "TO", "<=3 >x", "+a -b", "a~1.2.3", "\"unterminated", "/re/ x", "a)b",
-        "\t-\tx\n", "~", "x^.", "{a TO b]", "a AND b OR c d", "é　ü", "a\\ b", "[a %d]", "x:[10% 20%]", "TO~2", "TO:x", "price:[10 TO", "{a b", "<TO"]
+        "\t-\tx\n", "~", "x^.", "{a TO b]", "a AND b OR c d", "é　ü", "a\\ b", "[a %d]", "x:[10% 20%]", "TO~2", "TO:x", "price:[10 TO", "{a b", "<TO",
+        "a^1234567890123456789012345678901234", "a~0.123456789012345678901234567891", "a\nb AND OR c", "OR"]
 
 
 DEEP = [("3000 nested parentheses", "(" * 3000 + "a" + ")" * 3000), ("3000 chained NOT", "NOT " * 3000 + "a"), ("2000 nested fields", "f:" * 2000 + "a"),
